@@ -47,6 +47,36 @@ end
 /-- the canonical XML tree a stanza tree stands for when placed where `inh` is the default namespace -/
 def canon (inh : Option Bytes) (t : Tree) : XNode := sortTree (canonRaw inh t)
 
+/-! ### the trees the property quantifies over -/
+
+/-- an (unprefixed) XML name in the sense of `Spec/Xml.lean` -/
+def isName : Bytes → Bool
+  | [] => false
+  | b :: r => isNameStart b && r.all isNameChar
+
+/-- no TAB / LF / CR (XML would normalise them inside an attribute value) -/
+def valueOk (v : Bytes) : Prop := ∀ b ∈ v, b ≠ 9 ∧ b ≠ 10 ∧ b ≠ 13
+/-- no CR (XML would normalise it inside character data) -/
+def textOk (d : Bytes) : Prop := ∀ b ∈ d, b ≠ 13
+
+mutual
+/-- element and attribute names are XML names (unprefixed), every string is a sequence of UTF-8 encoded
+    XML `Char`s, attribute values are free of TAB/LF/CR and text of CR, attribute tables satisfy the
+    hash-table invariant (in particular: keys are distinct), and no XMPP_STANZA_UNKNOWN node occurs
+    where the renderer goes (children of text nodes are never rendered; only their tables are constrained) -/
+def WfTree : Tree → Prop
+  | .tag name attrs ks =>
+    isName name = true ∧ legalChars name = true ∧
+      (∀ tab, attrs = some tab → HashTab.WF tab ∧
+        ∀ e ∈ tab.toList, isName e.1 = true ∧ legalChars e.1 = true ∧ legalChars e.2 = true ∧ valueOk e.2) ∧
+      WfKids ks
+  | .text d kk => legalChars d = true ∧ textOk d ∧ TabsWFKids kk
+  | .unknown _ => False
+def WfKids : List Tree → Prop
+  | [] => True
+  | k :: ks => WfTree k ∧ WfKids ks
+end
+
 mutual
 /-- what parser_expat.c builds for one element -/
 def ofXNode : XNode → Tree
